@@ -21,6 +21,7 @@ RULE = ("Operations attach (add_child), detach (remove_child), declare (add_name
         "parent's prefixes visible with the child's own bindings winning); after every operation nsmap of every node of "
         "every tree equals the model, so nothing outside the operated subtree changes.  Non-trivial: a prefix re-declared "
         "on a node that at that moment shares its dict object with a node outside its subtree; distinct (state, op) pairs.")
+RULE += ('  Forest nodes carry element names a library may treat specially (metadata, additionalMetadata, references, eml ...).')
 ASSUMPTIONS = [
     "on attach, for strict descendants of the child that already had their own binding only presence of the prefix is checked",
     "for the bulk helpers only the locality clause (nodes outside the subtree unchanged) is checked",
